@@ -38,6 +38,9 @@ def core_check(prop, tier, seed, replay):
     if prop in ("C01", "C13"):
         from . import fam_more as M
         pairs += [(M.EXPIRY_RELAY, T.run_family(M.EXPIRY_RELAY, tier, seed))]
+    if prop in ("C11", "C02", "C19"):
+        from . import fam_more as M
+        pairs += [(M.SPARSE, T.run_family(M.SPARSE, tier, seed))]
     if prop == "C19":
         from . import fam_more as M
         pairs += [(A.FAM_BIG, T.run_family(A.FAM_BIG, tier, seed)), (M.GENESIS, T.run_family(M.GENESIS, tier, seed)),
@@ -48,7 +51,7 @@ def core_check(prop, tier, seed, replay):
 def _family_by_name(name):
     from . import fam_apps as A
     from . import fam_more as M
-    for f in (CORE, A.FAM, A.FAM_BIG, M.GENESIS, M.GENESIS_APPS, M.EXPIRY, M.EXPIRY_RELAY):
+    for f in (CORE, A.FAM, A.FAM_BIG, M.GENESIS, M.GENESIS_APPS, M.EXPIRY, M.EXPIRY_RELAY, M.SPARSE):
         if f["name"] == name:
             return f
     return CORE
